@@ -647,9 +647,19 @@ func (cl *collector) define(v ssa.Value, depth int) {
 	}
 	switch x := v.(type) {
 	case *ssa.Convert:
-		// narrowing: result within the destination type's range (added above); if the source is
-		// known to fit, the value is preserved — not modelled.
+		// a conversion that is not value-preserving by type still preserves a value that
+		// provably fits the destination type
 		cl.define(x.X, depth+1)
+		if isIntType(x.X.Type()) && depth < 6 {
+			sub := &collector{p: p, f: newFactSet(), q: q, seen: map[ssa.Value]bool{}, seenLen: map[ssa.Value]bool{}, nilErr: cl.nilErr, budget: 60}
+			sub.define(x.X, depth+1)
+			sub.f.close()
+			xt := p.intTerm(x.X, q)
+			dlo, dhi, _ := intRange(x.Type())
+			if sub.f.le(term{"", dlo}, xt, 0) && (dhi >= inf || sub.f.le(xt, term{"", dhi}, 0)) {
+				f.addEQ(t, xt, 0)
+			}
+		}
 	case *ssa.BinOp:
 		cl.define(x.X, depth+1)
 		cl.define(x.Y, depth+1)
@@ -718,6 +728,12 @@ func (cl *collector) define(v ssa.Value, depth int) {
 			lt := p.lenTerm(args[0], q)
 			f.addLE(t, lt, -1)
 			cl.defineLen(args[0], depth+1)
+		case (name == "lzhuf.bitReader.ReadBits" || name == "lzhuf.bitReader.ReadBits64") && p.c.readBitsMasked():
+			// result is 0 or x & ((1<<bits)-1): structural check in readBitsMasked (rule C08-sticky)
+			if k, ok := constInt(args[1]); ok && k >= 0 && k < 62 {
+				f.addLE(term{}, t, 0)
+				f.addLE(t, term{"", int64(1)<<uint(k) - 1}, 0)
+			}
 		case name == "bytes.Buffer.Len" || name == "bufio.Reader.Buffered" || name == "strings.Count" || name == "unicode/utf8.RuneCountInString":
 			f.addLE(term{}, t, 0)
 		default:
@@ -763,11 +779,102 @@ var indexFuncs = map[string]bool{
 	"bytes.LastIndex": true, "bytes.LastIndexByte": true, "bytes.LastIndexAny": true,
 }
 
+// phiLowerBounds computes, for every integer phi of fn, a constant lower bound by an optimistic
+// fixpoint over the web of phis: lo(phi) = min over incoming edges, where an edge is a constant,
+// another phi plus a constant, a value that is non-negative by construction (length, read count,
+// unsigned type), or unknown (-inf).
+func phiLowerBounds(fn *ssa.Function) map[*ssa.Phi]int64 {
+	if m, ok := phiLoCache[fn]; ok {
+		return m
+	}
+	lo := map[*ssa.Phi]int64{}
+	var phis []*ssa.Phi
+	eachInstr(fn, func(_ *ssa.BasicBlock, _ int, in ssa.Instruction) {
+		if ph, ok := in.(*ssa.Phi); ok && isIntType(ph.Type()) {
+			lo[ph] = inf
+			phis = append(phis, ph)
+		}
+	})
+	var edgeLo func(v ssa.Value, depth int) int64
+	edgeLo = func(v ssa.Value, depth int) int64 {
+		v = strip(v)
+		if depth > 8 {
+			return -inf
+		}
+		if n, ok := constInt(v); ok {
+			return n
+		}
+		if l, _, ok := intRange(v.Type()); ok && l >= 0 {
+			return 0
+		}
+		switch x := v.(type) {
+		case *ssa.Phi:
+			if l, ok := lo[x]; ok {
+				return l
+			}
+		case *ssa.BinOp:
+			if k, isC := constInt(x.Y); isC && (x.Op == token.ADD || x.Op == token.SUB) {
+				b := edgeLo(x.X, depth+1)
+				if b <= -inf || b >= inf {
+					return b
+				}
+				if x.Op == token.ADD {
+					return b + k
+				}
+				return b - k
+			}
+			if x.Op == token.AND {
+				if k, isC := constInt(x.Y); isC && k >= 0 {
+					return 0
+				}
+			}
+		case *ssa.Call:
+			switch callName(&x.Call) {
+			case "builtin.len", "builtin.cap", "builtin.copy", "bytes.Buffer.Len":
+				return 0
+			}
+		case *ssa.Extract:
+			if call, ok := x.Tuple.(*ssa.Call); ok && x.Index == 0 && strings.HasSuffix(callName(&call.Call), ".Read") {
+				return 0
+			}
+		}
+		return -inf
+	}
+	for round := 0; round < 60; round++ {
+		changed := false
+		for _, ph := range phis {
+			m := inf
+			for _, e := range ph.Edges {
+				if l := edgeLo(e, 0); l < m {
+					m = l
+				}
+			}
+			if round > 30 && m < lo[ph] {
+				m = -inf // still descending: no constant bound
+			}
+			if m != lo[ph] {
+				lo[ph] = m
+				changed = true
+			}
+		}
+		if !changed {
+			break
+		}
+	}
+	phiLoCache[fn] = lo
+	return lo
+}
+
+var phiLoCache = map[*ssa.Function]map[*ssa.Phi]int64{}
+
 // inductive handles phi(c0..., phi + k): a counter that only grows keeps its initial lower bound
 // (and dually); other edges contribute relations proven at their predecessor.
 func (cl *collector) inductive(x *ssa.Phi, depth int) {
 	p, f, q := cl.p, cl.f, cl.q
 	t := p.intTerm(x, q)
+	if l, ok := phiLowerBounds(x.Parent())[x]; ok && l > -inf && l < inf {
+		f.addLE(term{"", l}, t, 0)
+	}
 	lo, hi := inf, -inf
 	loOK, hiOK := true, true
 	for _, e := range x.Edges {
@@ -1021,6 +1128,8 @@ func (cl *collector) calleeResult(call *ssa.Call, callee *ssa.Function, resultId
 		switch s.kind {
 		case "ge-const":
 			f.addLE(term{"", s.k}, rt, 0)
+		case "le-const":
+			f.addLE(rt, term{"", s.k}, 0)
 		case "le-len-param":
 			if s.param < len(call.Call.Args) {
 				f.addLE(rt, p.lenTerm(call.Call.Args[s.param], q), 0)
